@@ -433,6 +433,9 @@ def r9_user_data_rebuild(ctx):
                 builds = True
     rd, _wr = idioms.fields_touched(ws, f, USER_DATA)
     got |= rd
+    # a rebuild that starts from a clone of the original carries everything over
+    if any(cname(t) == "clone" and "UserData" in ((t.get("callee_full") or "") + (t.get("self_ty") or "") + " ".join(t.get("targs") or [])) for _b, _i, t in f.calls()):
+        got |= set(parts)
     k = f.root + "|copies-user-data"
     if not builds and not got:
         r.ok(k, cfg.loc(f.main), "write_update_checksum no longer rebuilds a UserData (nothing to carry over)", work=1)
